@@ -235,3 +235,9 @@ pub trait WalletOutputBatch<K> where K: Keychain {
         ensures r is Ok ==> self.result() == self.view(),
             r is Err ==> self.result() == self.base();
 }
+
+// S2 (inserted by the extractor only at `return` / desugared `?` exits that lie inside the lexical scope of a write
+// batch and textually before its `commit()`): leaving the scope drops the batch uncommitted, LMDB aborts the
+// transaction, so nothing of it is ever committed.
+#[verifier::external_body]
+pub proof fn vf_batch_abandoned<K: Keychain>(b: &dyn WalletOutputBatch<K>) ensures b.result() == b.base() { }
